@@ -596,8 +596,10 @@ def rule_R16_4(ctx):
     seen_sites = set()
     for g in [f] + prog.closures_of(f.path) + helpers_ + \
             [h for h in prog.hand_fns() if not h.from_expansion and h.impl_trait is None]:
+        if prog.ctor_helper(g.path) is not None:
+            continue      # a constructor helper: its call sites carry the (virtual) aggregate
         for bb, i, pl, kd, aops, sp in g.aggregates(ERR, "InvalidEqOpTypes"):
-            if i < 0 or (g.path, bb, i) in seen_sites:
+            if (g.path, bb, i) in seen_sites:
                 continue
             seen_sites.add((g.path, bb, i))
             n += 1
